@@ -1,6 +1,6 @@
-\* wider: four configurations (adds evaluation limit for the DE kinds, dump every generation / every 3rd)
+\* wider: three further configurations (evaluation limit for DE, dump every generation / 2nd / 3rd, stops at 1, 2, 3)
 SPECIFICATION Spec
-CONSTANTS Kinds = {"DE", "DE2", "NM", "PW"}
+CONSTANTS Kinds = {"DE", "PW"}
   NP = 2
   MaxGen = 3
   MaxInst = 3
